@@ -13,7 +13,24 @@ import EaselModel.Weights.BlosumPerm
   Theorems about the `ℚ` instance of the executable model `EaselModel.Weights` (the `Float` instance of the same
   definitions is what the driver runs bit-exactly against the C code). `Mode` = text (isalpha / toupper) or digital
   (esl_abc_XIsResidue / exact code); every statement holds for both.  Specs: `nidSpec` (identical residue pairs),
-  `lenSpec` (ungapped length), `pidSpec`, `Reach` (connectivity in the link graph), `pbTerms` (the 1/(r·c) terms). -/
+  `lenSpec` (ungapped length), `pidSpec`, `Reach` (connectivity in the link graph), `pbTerms` (the 1/(r·c) terms).
+
+  Coverage of the statement of C16 (properties.jsonl):
+  * PB, BLOSUM, GSC weights ≥ 0 and Σ = N ............ `pb_nonneg` `pb_sum` `blosum_sum_nonneg` `gsc_sum_nonneg`
+  * identical sequences ⇒ identical weights ........... `pb_identical_rows` `blosum_identical_rows`;
+      GSC: FALSE for the code, `gsc_identical_rows_fails_at` (known finding), no positive theorem
+  * PB = per-column 1/(r·c) formula / residue count ... `pb_formula` + `pb_counts_digital` `pb_counts_text`
+  * BLOSUM = one over cluster size (scaled N/#clusters)  `blosum_formula`
+  * relisting permutes the weights .................... `pb_relisting_digital` `pb_relisting_text` `blosum_relisting`;
+      GSC with tie-free pairwise distances: FALSE for the code, `gsc_relisting_fails_at` (known finding); not proved
+      under the stronger hypothesis "no tie at any UPGMA step" (monitored only)
+  * pairwise identity ................................. `pairId_spec` `pairId_symm` `pairId_self` `pairId_empty`
+      `pairId_unaligned` `pairId_range` `pairIdMx_spec`
+  * identity filtering: independent and maximal ....... `idFilter_independent_maximal` `idFilterText_spec`
+      `idFilterDigital_spec` (+ `quicksort_permutation`)
+  * single linkage = connected components, sizes/count  `singleLinkage_components` `singleLinkage_assignment`
+      `singleLinkage_numbering` `singleLinkage_sizes` `msaSingleLinkage_components`
+  All over exact rationals (L1); binary64 rounding of the results is outside the theorems (L0). -/
 namespace EaselModel.Props.C16
 open EaselModel.Weights
 
